@@ -364,49 +364,28 @@ fn c14_command_scale_keeps_kind() {
     reach!();
 }
 
-// Value clauses of Mul<f32>/Div<f32>: the command is built with a CONCRETE variant (all three, one after the
-// other) and a symbolic payload, so that the operand of the crate's `f32::from(self) * rhs` is syntactically the
-// payload itself and CBMC shares the one multiplier/divider circuit between code and spec (a symbolic variant
-// makes SAT prove two dividers equivalent: > 35 min).  Complete: 3 variants x every f32 payload x every f32 factor.
-//@ob fn="<Command as Mul<f32>>::mul" at=src/command.rs:108 clause="for each of the three kinds, every payload x and every factor f (0, inf, NaN included): c * f has the same kind and value bit-identical to x * f"
+//@ob fn="<Command as Mul<f32>>::mul" at=src/command.rs:108 clause="for every command (any kind, any payload x) and every factor f (0, inf, NaN included): c * f has the same kind and value bit-identical to x * f"
 #[kani::proof]
 fn c14_command_mul_f32_value() {
-    let x: f32 = kani::any();
+    let c: Command = kani::any();
     let f: f32 = kani::any();
-    let want = x * f;
-    match Command::Position(x) * f {
-        Command::Position(y) => assert!(feq(y, want)),
-        _ => assert!(false),
-    }
-    match Command::Velocity(x) * f {
-        Command::Velocity(y) => assert!(feq(y, want)),
-        _ => assert!(false),
-    }
-    match Command::Acceleration(x) * f {
-        Command::Acceleration(y) => assert!(feq(y, want)),
-        _ => assert!(false),
-    }
+    let (k, x) = raw_parts(c);
+    let (k2, y) = raw_parts(c * f);
+    assert!(k2 == k);
+    assert!(feq(y, x * f));
     reach!();
 }
 
-//@ob fn="<Command as Div<f32>>::div" at=src/command.rs:116 clause="for each of the three kinds, every payload x and every divisor f (0, inf, NaN included): c / f has the same kind and value bit-identical to x / f"
+//@ob fn="<Command as Div<f32>>::div" at=src/command.rs:116 clause="for every command (any kind, any payload x) and every divisor f (0, inf, NaN included): c / f has the same kind and value bit-identical to x / f" tier=thorough
 #[kani::proof]
+#[kani::solver(bin = "kissat")]
 fn c14_command_div_f32_value() {
-    let x: f32 = kani::any();
+    let c: Command = kani::any();
     let f: f32 = kani::any();
-    let want = x / f;
-    match Command::Position(x) / f {
-        Command::Position(y) => assert!(feq(y, want)),
-        _ => assert!(false),
-    }
-    match Command::Velocity(x) / f {
-        Command::Velocity(y) => assert!(feq(y, want)),
-        _ => assert!(false),
-    }
-    match Command::Acceleration(x) / f {
-        Command::Acceleration(y) => assert!(feq(y, want)),
-        _ => assert!(false),
-    }
+    let (k, x) = raw_parts(c);
+    let (k2, y) = raw_parts(c / f);
+    assert!(k2 == k);
+    assert!(feq(y, x / f));
     reach!();
 }
 
